@@ -305,6 +305,8 @@ class Routine:
                     none_bad = (0 in bad_vals) or (bad_other and not any(v == 0 for v, _ in t["arms"]))
                     if oe and none_bad:
                         cls = oe
+                    elif isinstance(inner, tuple) and inner[0] == "call" and inner[1] == "partial_cmp" and len(inner[3]) == 2 and none_bad:
+                        cls = ("NOORDER", strip(inner[3][0]), strip(inner[3][1]))       # match a.partial_cmp(b) { None => Err(..), … }
                     elif isinstance(inner, tuple) and inner[0] == "call" and none_bad and self.returns_option(inner):
                         cls = ("ISNONE", inner)
                     elif isinstance(inner, tuple) and inner[0] == "call":
